@@ -4,7 +4,10 @@ import (
 	"errors"
 	"fmt"
 	"io"
+	"sort"
 	"strings"
+	"sync"
+	"sync/atomic"
 	"testing"
 	"testing/synctest"
 	"time"
@@ -28,9 +31,13 @@ type CaseC18 struct {
 	Entry       string  `json:"entry"`  // "stream", "file", "file-missing", "file-eacces"
 	Policy      string  `json:"policy"` // "documented" (return at first error or Done), "drain" (receive until Done)
 	ReaderChunk int     `json:"reader_chunk"`
-	ReaderStall []int64 `json:"reader_stall_ns"`   // fake-time sleep before the i-th read (cyclic)
-	ConsStall   []int64 `json:"consumer_stall_ns"` // fake-time sleep before the i-th receive (cyclic)
-	FaultAt     int     `json:"fault_at"`          // read fault offset, -1 none
+	ReaderStall []int64 `json:"reader_stall_units"` // fake-time sleep before the i-th read (cyclic), x1024 ns
+	// Sched is the schedule: the consumer's goroutine doubles as a cooperative scheduler and reads
+	// four numbers per step from this cyclic list (receive first or release first; in which order to
+	// poll the three channels; which parked goroutine to release; whether the consumer is already
+	// waiting in its select when that goroutine moves on).
+	Sched   []int `json:"sched"`
+	FaultAt int   `json:"fault_at"` // read fault offset, -1 none
 }
 
 // stallReader is the simulated transport between file and producer.
@@ -48,7 +55,7 @@ var errInjectedRead = errors.New("hrsim: injected read failure")
 func (r *stallReader) Read(p []byte) (int, error) {
 	if len(r.stalls) > 0 {
 		if d := r.stalls[r.reads%len(r.stalls)]; d > 0 {
-			time.Sleep(time.Duration(d))
+			time.Sleep(time.Duration(d * 1024))
 		}
 	}
 	r.reads++
@@ -92,9 +99,9 @@ func genC18(thorough bool) func(t *rapid.T) Case {
 		c.Entry = rapid.SampledFrom([]string{"stream", "stream", "file", "file-missing", "file-eacces"}).Draw(t, "entry")
 		c.Policy = rapid.SampledFrom([]string{"documented", "drain"}).Draw(t, "policy")
 		c.ReaderChunk = rapid.SampledFrom([]int{0, 1, 5, 17, 64}).Draw(t, "reader_chunk")
-		stall := rapid.SampledFrom([]int64{0, 0, 1, 1000, 1e6, 1e9})
+		stall := rapid.SampledFrom([]int64{0, 0, 1, 2, 5, 1000})
 		c.ReaderStall = rapid.SliceOfN(stall, 0, 4).Draw(t, "reader_stalls")
-		c.ConsStall = rapid.SliceOfN(stall, 0, 4).Draw(t, "consumer_stalls")
+		c.Sched = rapid.SliceOfN(rapid.IntRange(0, 5), 0, 16).Draw(t, "schedule")
 		if c.Entry == "stream" && rapid.IntRange(0, 3).Draw(t, "read_fault") == 3 {
 			c.FaultAt = rapid.IntRange(0, len(c.Text)).Draw(t, "fault_at")
 		}
@@ -142,6 +149,7 @@ type recvEvent struct {
 // Eval runs producer and consumer inside a synctest bubble.
 func (c *CaseC18) Eval(ob *Obs) []Finding {
 	var history []recvEvent
+	var decisions []string // the interleaving actually taken: scheduler decisions and receives, in order
 	var producerExitedAfterPolicy, consumerFinished, producerExitedAtEnd bool
 	var deadlock string
 	sigTail := " entry=" + c.Entry + " policy=" + c.Policy
@@ -160,13 +168,63 @@ func (c *CaseC18) Eval(ob *Obs) []Finding {
 			}
 		}()
 		synctest.Test(curT, func(t *testing.T) {
+			// --- the seeded cooperative scheduler -------------------------------------------------
+			// Every goroutine of the code under test parks at each yield point (R7: before every
+			// channel send, at the start of every goroutine) until the scheduler hands it a token.
+			// The scheduler is this (the consumer's) goroutine: after synctest.Wait() every other
+			// goroutine is parked, blocked on a channel, asleep in fake time, or gone, so the set
+			// of possible next steps is well defined and the plan (c.Sched) picks one. Nothing is
+			// left to the Go scheduler or to select's random choice.
+			type parkedG struct {
+				site string
+				seq  int64
+				ch   chan struct{}
+			}
+			var mu sync.Mutex
+			var parked []*parkedG
+			var seq atomic.Int64
+			verifsim.SetYieldHook(func(site string) {
+				g := &parkedG{site: site, seq: seq.Add(1), ch: make(chan struct{})}
+				mu.Lock()
+				parked = append(parked, g)
+				mu.Unlock()
+				<-g.ch
+			})
+			defer verifsim.SetYieldHook(nil)
+			takeParked := func(pick int) *parkedG {
+				mu.Lock()
+				defer mu.Unlock()
+				if len(parked) == 0 {
+					return nil
+				}
+				sort.Slice(parked, func(i, j int) bool {
+					if parked[i].site != parked[j].site {
+						return parked[i].site < parked[j].site
+					}
+					return parked[i].seq < parked[j].seq
+				})
+				i := pick % len(parked)
+				g := parked[i]
+				parked = append(parked[:i], parked[i+1:]...)
+				return g
+			}
+			step := 0
+			next := func() int {
+				v := 0
+				if len(c.Sched) > 0 {
+					v = c.Sched[step%len(c.Sched)]
+				}
+				step++
+				return v
+			}
+
 			p := parser.NewParser(parser.NewDefaultConfig())
-			exited := false
+			var exited atomic.Bool
 			var st *verifsim.State
 			switch c.Entry {
 			case "stream":
 				rd := &stallReader{data: c.Text, chunk: c.ReaderChunk, stalls: c.ReaderStall, faultAt: c.FaultAt}
-				go func() { p.ParseStream(rd); exited = true }()
+				go func() { p.ParseStream(rd); exited.Store(true) }()
 			default:
 				w := noFaultWorld()
 				kind := "file"
@@ -181,62 +239,141 @@ func (c *CaseC18) Eval(ob *Obs) []Finding {
 					w.Files = []FileSpec{{Path: "/sim/in.yaml", Kind: kind, Data: c.Text, Plan: ReadPlan{FaultAt: -1, Chunk: chunk, MaxChunk: c.ReaderChunk}}}
 				}
 				st = verifsim.InstallLight(w)
-				go func() { p.ParseFile("/sim/in.yaml"); exited = true }()
+				go func() { p.ParseFile("/sim/in.yaml"); exited.Store(true) }()
 			}
-			recvs := 0
-			stall := func() {
-				if len(c.ConsStall) > 0 {
-					if d := c.ConsStall[recvs%len(c.ConsStall)]; d > 0 {
-						time.Sleep(time.Duration(d))
+
+			record := func(kind, val string) {
+				history = append(history, recvEvent{kind, val})
+				decisions = append(decisions, "recv:"+kind)
+			}
+			// tryRecv: one non-blocking receive attempt per channel, in the order the plan gives.
+			orders := [][3]int{{0, 1, 2}, {0, 2, 1}, {1, 0, 2}, {1, 2, 0}, {2, 0, 1}, {2, 1, 0}}
+			tryRecv := func(order [3]int) (got bool) {
+				for _, ch := range order {
+					switch ch {
+					case 0:
+						select {
+						case n := <-p.Nodes:
+							record("node", nodeString(n))
+							return true
+						default:
+						}
+					case 1:
+						select {
+						case err := <-p.Errors:
+							record("error", err.Error())
+							return true
+						default:
+						}
+					case 2:
+						select {
+						case <-p.Done:
+							record("done", "")
+							return true
+						default:
+						}
 					}
 				}
-				recvs++
+				return false
 			}
-			// the consumer
-		loop:
-			for {
-				stall()
-				select {
-				case n := <-p.Nodes:
-					history = append(history, recvEvent{"node", nodeString(n)})
-				case err := <-p.Errors:
-					history = append(history, recvEvent{"error", err.Error()})
-					if c.Policy == "documented" {
-						break loop
-					}
-				case <-p.Done:
-					history = append(history, recvEvent{"done", ""})
-					break loop
+			finished := func() bool {
+				if len(history) == 0 {
+					return false
 				}
-				if len(history) > 10000 {
-					break loop
-				}
+				last := history[len(history)-1]
+				return last.kind == "done" || (last.kind == "error" && c.Policy == "documented") || len(history) > 10000
 			}
-			consumerFinished = true
-			synctest.Wait()
-			producerExitedAfterPolicy = exited
-			// let a producer that is still sending finish, so that the bubble can end
-			for i := 0; i < 100000 && !exited; i++ {
-				select {
-				case <-p.Nodes:
-				case <-p.Errors:
-				case <-p.Done:
-				default:
-					time.Sleep(time.Second)
-				}
+			const quantum = 1024
+			idle := int64(0)
+			const idleBudget = int64(1) << 42 // fake nanoseconds without any possible step: the consumer would wait for ever
+			// the consumer, driven by the plan
+			for !finished() && idle < idleBudget {
 				synctest.Wait()
+				recvFirst, order, pick, consumerFirst := next()%2 == 0, orders[next()%6], next(), next()%2 == 1
+				if recvFirst && tryRecv(order) {
+					idle = 0
+					continue
+				}
+				if g := takeParked(pick); g != nil {
+					idle = 0
+					decisions = append(decisions, fmt.Sprintf("release:%s:%v", g.site, consumerFirst))
+					if !consumerFirst {
+						close(g.ch) // the goroutine runs until it parks again, blocks, sleeps or ends
+						continue
+					}
+					// consumer first: it is already waiting in its select when the goroutine moves on
+					go func() { time.Sleep(1); close(g.ch) }()
+					select {
+					case n := <-p.Nodes:
+						record("node", nodeString(n))
+					case err := <-p.Errors:
+						record("error", err.Error())
+					case <-p.Done:
+						record("done", "")
+					case <-time.After(quantum):
+					}
+					continue
+				}
+				if !recvFirst && tryRecv(order) {
+					idle = 0
+					continue
+				}
+				// nobody can move now: let fake time pass (a stalled reader may wake up)
+				d := int64(quantum)
+				if idle > 0 {
+					d = idle
+				}
+				idle += d
+				time.Sleep(time.Duration(d))
 			}
-			producerExitedAtEnd = exited
+			consumerFinished = finished()
+			// let the producer side run as far as it can on its own
+			for i := 0; i < 100000; i++ {
+				synctest.Wait()
+				g := takeParked(0)
+				if g == nil {
+					break
+				}
+				close(g.ch)
+			}
+			synctest.Wait()
+			producerExitedAfterPolicy = exited.Load()
+			// release whatever is still sending, so that the bubble can end
+			for i := 0; i < 100000 && !exited.Load(); i++ {
+				synctest.Wait()
+				if g := takeParked(0); g != nil {
+					close(g.ch)
+					continue
+				}
+				if !tryRecv(orders[0]) {
+					time.Sleep(quantum << 20)
+					if i > 64 {
+						break
+					}
+				}
+			}
+			synctest.Wait()
+			producerExitedAtEnd = exited.Load()
 			if st != nil {
 				st.UninstallLight()
 			}
 		})
 	}()
+	verifsim.SetYieldHook(nil)
 	if cur := verifsim.Current(); cur != nil {
 		cur.UninstallLight()
 	}
 	ob.count("lib_evals", 1)
 	ob.nontrivial(hashOf(c))
+	if len(ob.Traces) < setCap {
+		ob.Traces[hashOf(decisions)] = struct{}{} // distinct interleavings reached
+	}
+	for _, d := range decisions {
+		if strings.HasSuffix(d, ":true") {
+			ob.probe("consumer_waiting_first")
+			break
+		}
+	}
 	if producerExitedAfterPolicy {
 		ob.probe("producer_exited_after_policy")
 	} else if consumerFinished {
